@@ -17,12 +17,36 @@ COMPONENTS = {"real": ["Atoms.__delitem__, _delete_and_reindex_atom_index_array,
               "oracle_only": ["mofsim.refmodel.RefAtoms.delete"]}
 ASSUMPTIONS = ["indices are distinct, valid and non-negative, as the quantifier says"]
 NRUNS = {"quick": 6000, "thorough": 80000}
-MUST_REACH = ["exhaustive_subsets", "deletions_touching_terms", "op_pop"]
+MUST_REACH = ["exhaustive_subsets", "deletions_touching_terms", "op_pop", "large_deletions", "deletions_by_own_term_view"]
+RUN_TIMEOUT = 180.0
 
 
 def generate(rng, tier):
     w = {"copy": 1, "subset": 0.3, "delete": 3, "delete_touching": 1, "delete_all": 0.2, "pop": 2, "translate": 0.2, "extend": 3, "replicate": 0.3}
-    spec = machine.gen_world(rng, nobj=(1, 3), nops=(0, 5), weights=w, max_atoms=7, empty_prob=0.0)
+    big = rng.random() < 0.25
+    spec = machine.gen_world(rng, nobj=(1, 3), nops=(0, 5), weights=w, max_atoms=60 if big else 7, empty_prob=0.0)
+    if big:
+        for o in spec["objects"]:
+            if len(o["positions"]) < 25:
+                extra = machine.gen_fragment(rng, spec["cfg"], o["name"], natoms=rng.randint(30, 60), cell=o.get("cell"), idiom=o["idiom"])
+                extra["name"] = o["name"]
+                o.clear()
+                o.update(extra)
+    if rng.random() < 0.05:
+        # a large framework with a handful of terms that share atoms; many scattered atoms are deleted at once
+        o = machine.gen_fragment(rng, spec["cfg"], "huge", natoms=rng.randint(300, 500), cell=spec["objects"][0].get("cell"), idiom="explicit")
+        nat = len(o["positions"])
+        hub = rng.randrange(nat)
+        for k in refmodel.KINDS:
+            if k in spec["cfg"]["kinds"] or k == "bond":
+                ar = refmodel.ARITY[k]
+                o[refmodel.PLURAL[k]] = [[hub] + rng.sample([i for i in range(nat) if i != hub], ar - 1) for _ in range(rng.randint(2, 4))]
+                o["%s_types" % k] = [0] * len(o[refmodel.PLURAL[k]])
+                o["%s_type_coeffs" % k] = [machine.gen_coeff(rng, "h")] if spec["cfg"]["tabled"][k] else []
+                o["extra_%s_labels" % k], o["extra_%s_fields" % k] = [], []
+        spec["objects"] = [o]
+        spec["ops"] = []
+        spec["huge"] = True
     n = len(spec["objects"])
     tail = []
     for _ in range(rng.randint(1, 4)):
@@ -30,7 +54,9 @@ def generate(rng, tier):
             tail.append({"op": "pop", "obj": rng.randrange(n), "pos": None if rng.random() < 0.5 else rng.random()})
         else:
             tail.append({"op": "delete", "obj": rng.randrange(n), "picks": [rng.random() for _ in range(rng.randint(1, 5))],
-                         "container": rng.choice(["list", "ndarray", "tuple", "np.int64"])})
+                         "container": rng.choice(["list", "ndarray", "tuple", "np.int64", "own_view", "own_view"]), "many": big and rng.random() < 0.6})
+    if spec.get("huge"):
+        tail = [{"op": "delete", "obj": 0, "picks": [rng.random() for _ in range(rng.randint(15, 40))], "container": rng.choice(["list", "ndarray"])}]
     spec["ops"] += tail
     spec["fanout_seed"] = rng.getrandbits(20)
     return spec
